@@ -1,6 +1,7 @@
 //! Driver for libp2p-kad components: k-bucket table (C37, C38), key metric (C40), peer iterators (C39),
 //! memory store (C41), record lifetimes and inbound request handling (C42, C43), wire codec (C44).
 mod kbucket;
+mod lookup;
 mod record;
 mod store;
 
@@ -10,6 +11,7 @@ fn main() {
     match a.mode.as_str() {
         "kbucket" => kbucket::main(&sub),
         "store" => store::main(&sub),
+        "lookup" => lookup::main(&sub),
         "record" => record::main(&sub),
         m => {
             eprintln!("unknown mode {m}");
